@@ -866,6 +866,78 @@ pub fn shrink_main<P: Property>(path: &str, out: &str) -> i32 {
     0
 }
 
+/// Binary cross-check: the first scenarios of the quick tier that are comparable, through the
+/// seams and through the real executables. Exit 0 = all agree, 2 = a disagreement (harness
+/// error by design: real pipes are not under seed control).
+pub fn crosscheck_main<P: Property>(n: u64) -> i32 {
+    use crate::crosscheck::Xc;
+    let root = verif_root();
+    let bins = std::env::var("FUSIM_BINS").map(PathBuf::from).unwrap_or_else(|_| root.join("sim/target/repo-bins/debug"));
+    if !bins.join("find").exists() || !bins.join("xargs").exists() {
+        println!("HARNESS-ERROR: no feature-off executables in {} (run ./check --build-bins)", bins.display());
+        return 2;
+    }
+    let base = base_seed();
+    let seeded = seeded_budget::<P>(Tier::Quick);
+    let parent = make_scratch_parent();
+    let start = Instant::now();
+    let (tried, compared, disagreements) = with_ctx::<P, _>(parent.clone(), "xc".into(), true, move |ctx| {
+        let mut tried = 0u64;
+        let mut compared = 0u64;
+        let mut dis: Vec<(u64, String)> = vec![];
+        let mut i = 0u64;
+        while compared < n && tried < n * 30 && i < seeded {
+            let (_, sc) = scenario_for::<P>(base, Tier::Quick, seeded, i);
+            tried += 1;
+            match P::crosscheck(&sc, ctx, &bins) {
+                Xc::NotComparable => {}
+                Xc::Agree => compared += 1,
+                Xc::Disagree(d) => {
+                    compared += 1;
+                    if dis.len() < 5 {
+                        dis.push((i, d));
+                    }
+                }
+            }
+            i += 1;
+        }
+        (tried, compared, dis)
+    });
+    sys::wipe(&parent);
+    let wall = start.elapsed().as_secs_f64();
+    println!(
+        "fusim: crosscheck property={} scenarios_tried={} compared_with_executables={} disagreements={} {:.1} s",
+        P::ID,
+        tried,
+        compared,
+        disagreements.len(),
+        wall
+    );
+    for (i, d) in &disagreements {
+        println!("HARNESS-ERROR: binary cross-check, quick run {i}: {}", d.chars().take(1500).collect::<String>());
+    }
+    // record in the evidence file of the last check run, if there is one
+    let out_root = std::env::var("FUSIM_OUT").map(PathBuf::from).unwrap_or_else(|_| root.clone());
+    let evp = out_root.join("evidence").join(format!("{}.json", P::ID));
+    if let Ok(text) = fs::read_to_string(&evp) {
+        if let Ok(mut v) = serde_json::from_str::<Value>(&text) {
+            v["coverage"]["binary_crosscheck"] = json!({
+                "what": "the same scenario through the in-process seams and through the find/xargs executables built from /repo with the hooks feature off (real pipes, real simchild children): exit status, child argv and cwd, output bytes, presence of diagnostics must be equal",
+                "scenarios_tried": tried, "compared": compared, "disagreements": disagreements.len(), "wall_s": wall,
+            });
+            let _ = fs::write(&evp, serde_json::to_string_pretty(&v).unwrap());
+        }
+    }
+    if compared == 0 {
+        println!("fusim: crosscheck: no comparable scenario for {}", P::ID);
+    }
+    if disagreements.is_empty() {
+        0
+    } else {
+        2
+    }
+}
+
 /// Run the first n seeds of a property twice, in two different processes and
 /// with different worker counts, and compare per-run trace hashes.
 pub fn determinism_main<P: Property>(n: u64) -> i32 {
